@@ -9,7 +9,7 @@ COMMON_TB = [
 
 PROPS = {
     "C01": {
-        "level_text": "Lean 4 theorem over a labelled transition system of concurrent writers of the truth log (one transition = one effect: take the seq mutex, choose the seq from the in-memory map or — after a restart — from the log and append, bump the map, release; thread creation by branch/handoff/ensure_default with its hard-coded seq 0 and 1 frames; authority restarts): for EVERY number of writers, every program with fresh thread ids and EVERY interleaving, every stream's frames carry seq 0,1,2,... in file order (a validated replay succeeds); the mutex is exclusive; appends to a thread still being created write nothing. The full statement was false before the repair (witness kept: a client addressing a new thread between its creation frame and its lineage frame duplicated seq 1) and is now proved without any assumption on addressing. Obligations re-proved by decide on the effect orders REGENERATED from the current source on every run: all eleven append functions are critical sections of the modelled shape; branch, handoff and ensure_default create inside the seq lock; the log file write is body+newline+flush under its own mutex. Tied further by (a) a real-concurrency stress (2-6 OS threads, all append kinds, branch, handoff, compaction jobs, scheduler, linked session runs, across a restart) whose log must replay validated, and (b) controlled-schedule correspondence: writers single-stepped between the effects of the real functions, final (stream, seq) sequence compared with the LTS run on the same schedule; the witness schedule is replayed on the real store on every run.",
+        "level_text": "Lean 4 theorem over a labelled transition system of concurrent writers of the truth log (one transition = one effect: take the seq mutex, choose the seq from the in-memory map or — after a restart — from the log and append, bump the map, release; thread creation by branch/handoff/ensure_default with its hard-coded seq 0 and 1 frames; authority restarts): for EVERY number of writers, every program with fresh thread ids and EVERY interleaving, every stream's frames carry seq 0,1,2,... in file order (a validated replay succeeds); the mutex is exclusive; appends to a thread still being created write nothing. The full statement was false before the repair (witness kept: a client addressing a new thread between its creation frame and its lineage frame duplicated seq 1) and is now proved without any assumption on addressing. Obligations re-proved by decide on the effect orders REGENERATED from the current source on every run: all eleven append functions are critical sections of the modelled shape; branch, handoff and ensure_default create inside the seq lock; the log file write is body+newline+flush under its own mutex. Tied further by (a) a real-concurrency stress (2-6 OS threads, all append kinds, branch, handoff, compaction jobs, scheduler, linked session runs, across a restart) whose log must replay validated, and (b) controlled-schedule correspondence: writers single-stepped between the effects of the real functions, final (stream, seq) sequence compared with the LTS run on the same schedule; the witness schedule is replayed on the real store on every run. The task emitter's lock nesting is re-decided in this property's own file as well (gen_task_emit_numbers_inside_its_lock), and two or three emitters on one task are single-stepped between the effects of the real TaskEmitter::emit under random schedules: the task stream stands in the log as 0,1,2,… in file order.",
         "level_note": "Lean kernel; std::sync::Mutex is a mutex; O_APPEND writes of one frame are not interleaved (EventLog's own mutex, generated obligation); session and task streams are covered by a second LTS (any number of concurrent emitters on one stream; Rip.Model.Emitters) whose tie is the regenerated emitter order (C06) and the two-emitter controlled schedules of the C06 check, plus the stress oracle here; frames numbered from a counter passed by reference (session, tool and task helpers) are covered by a numbering theorem over token lists (Rip.Model.SeqAcct) whose hypothesis is re-decided on the token lists ripx extracts from the current source (gen_seq_accounting), and by provider runs with executed and refused tool calls followed by the per-stream check; preemption inside one effect is outside the model.",
         "technique": "Lean 4 proof (inductive invariant over all interleavings incl. restarts) + decide over regenerated effect orders + stress and controlled-schedule correspondence",
         "design_ref": "§5 C01",
@@ -39,7 +39,7 @@ PROPS = {
         "gen": ["LogEffects", "CallGraph", "EffectOrder"],
     },
     "C03": {
-        "level_text": "Lean 4 theorems over a schema interpreter for serde's wire form of rip-kernel's Event (envelope flattened beside an internally tagged kind; default / skip_serializing_if / alias attributes; stream_kind and stream_id recomputed by the writer and ignored by the reader): for EVERY well-formed schema and every typed frame, write-then-read yields a frame of the same variant (same stream) whose re-serialisation is byte-for-byte the same object, and reading ignores unknown keys. The full statement was found FALSE in exactly one case, characterised by an iff and kept as a checked witness: an Option field with skip_serializing_if holding Some(null) is written as an explicit null and read back as None (one trip normalises; proved stable afterwards). The schema of the CURRENT source (all variants, fields, aliases, attributes, stream assignment) is REGENERATED by the translator ripx on every run and its well-formedness re-proved by decide. Tied further by a correspondence run against real serde: for every variant, random typed payloads (unicode, 60 kB strings, u64 extremes, nested JSON, floats, unknown and alias keys) go through Event -> text -> Event -> text and through the Lean interpreter instantiated with the regenerated schema; plus an implementation oracle on histories: the frames a live subscriber saw, the log, replay_events and the per-continuity sidecar must be the same frames in the same order. A payload nested deeper than serde_json's recursion limit is written but cannot be read back: recorded known finding.",
+        "level_text": "Lean 4 theorems over a schema interpreter for serde's wire form of rip-kernel's Event (envelope flattened beside an internally tagged kind; default / skip_serializing_if / alias attributes; stream_kind and stream_id recomputed by the writer and ignored by the reader): for EVERY well-formed schema and every typed frame, write-then-read yields a frame of the same variant (same stream) whose re-serialisation is byte-for-byte the same object, and reading ignores unknown keys. The full statement was found FALSE in exactly one case, characterised by an iff and kept as a checked witness: an Option field with skip_serializing_if holding Some(null) is written as an explicit null and read back as None (one trip normalises; proved stable afterwards). The schema of the CURRENT source (all variants, fields, aliases, attributes, stream assignment) is REGENERATED by the translator ripx on every run and its well-formedness re-proved by decide. Tied further by a correspondence run against real serde: for every variant, random typed payloads (unicode, 60 kB strings, u64 extremes, nested JSON, floats, unknown and alias keys) go through Event -> text -> Event -> text and through the Lean interpreter instantiated with the regenerated schema; plus an implementation oracle on histories: the frames a live subscriber saw, the log, replay_events and the per-continuity sidecar must be the same frames in the same order. A payload nested deeper than serde_json's recursion limit is written but cannot be read back: recorded known finding. EventLog::append's three write / flush calls are unconditional for every frame kind (re-decided on the regenerated source), and every accepted frame of the wire cases is appended through the real EventLog and looked for on disk at once: the file has grown by exactly its bytes.",
         "level_note": "Lean kernel; JSON values are opaque leaves of the model (serde_json's own value round trip, including float printing, is exercised by the correspondence run, not proved; the float_roundtrip repair is covered there); ripx is trusted to read the serde attributes it knows and fails closed on an attribute it does not know; nested payload structs are leaves.",
         "technique": "Lean 4 proof (schema-generic round trip; decide over the regenerated event schema; decide-checked counterexample for the full statement) + differential correspondence against serde + four-view history oracle",
         "design_ref": "§5 C03",
@@ -51,7 +51,7 @@ PROPS = {
             "no code path stores Some(Value::Null) in an Option<Value> field with skip_serializing_if (the proved exception; none found in the source today)",
             "known finding: payloads nested deeper than 127 levels are written but unreadable (known_findings.json)",
         ],
-        "gen": ["EventSchema", "EffectOrder"],
+        "gen": ["EventSchema", "EffectOrder", "LogEffects"],
     },
     "C04": {
         "level_text": "Lean 4 theorems over an executable model of the tail-scanning read paths (provider cursor status, context selection status): truth answers as functions of the thread's frames, the bounded tail scan, the doubling-window loop and validate-then-fall-back, with the loop's features as switches so the code before and after the repairs can both be run — for EVERY cache content, limit, first window and maximum the loops end within max - w0 + 1 windows (FALSE before the repair: witness with a thread longer than the largest window); with a cache holding what it should the fast path equals the truth answer for every thread and window schedule (FALSE before the repair: duplicated decisions, partial cursor answers); a suffix-only cache file gave a wrong answer before scan_tail's head check and is harmless with it, for every valid thread, every non-empty suffix and every window schedule (proved for the shape regenerated from the current source); a rolled-back (prefix-only) file is undetectable even then (witness). A second model covers the windowed read of the full sidecar through its seek index at byte-offset level (loader, rebuild, validation, best entry, boundary scan, backward header scan with a budget, forward scan): for EVERY sidecar with increasing seqs, EVERY content of the index file (missing, rejected and rebuilt, stale, wrong in any entry), every cut, limit, stride and budget, a window read that answers at all answers what the index-free read answers, and that is exactly the kept frames between the window start and the cut (FALSE before the repair: an index right in its last entry and wrong before it was accepted and the window came back short; decide-checked witness). That best_offset_for_seq checks the entry it is about to use, with the failure propagated, before reading its offset, and that nobody else reads an entry's offset, is re-decided on the regenerated source on every run. The loop shapes, fall-back conditions and head check are REGENERATED from the current source on every run and the theorems are stated for the regenerated shape (genShape = current by decide). Tied by the property's own observation on every run: thread histories built through the store API (short; fat: sidecars beyond the first and the largest tail window; thorough: > 10^4 frames), per history an unfaulted round, an index-loss round and three fault rounds (delete / truncate at a byte / garbage / roll back to a saved earlier version on any cache file, half followed by a restart and further appends); nine read capabilities — replay, cut points, compaction status, cursor status, selection status, the context compiled for a run, branch and handoff cut, default-thread recovery — evaluated with caches as found vs continuity_streams/ removed under a 20 s cap; every difference shrunk to a 1-minimal fault set; every capability asked on its own copy of the faulted store (a replay heals the caches for whoever asks next); cursor and selection status also compared with the Lean specification; the real window read over eight kinds of seek-index file (right, missing, an offset moved to another line start or into a line, a seq changed, true entries elsewhere, arbitrary monotonic pairs, rejected by the loader) compared with the Lean model and judged by a model-free oracle. Five defect groups found and repaired (non-terminating / duplicating / partial tail scans; default thread after index loss; unvalidated seek entries; suffix-only full sidecar; cache-only in-flight job lookup), two recorded as known findings (stale prefix of any cache file, suffix-only derived cache files pass the validators).",
@@ -82,7 +82,7 @@ PROPS = {
             "process death between system calls; the OS keeps completed writes",
             "known findings: caches one frame behind between the restart and the thread's first write; derived caches one frame short for ever after a crash between the cache files of one append (known_findings.json)",
         ],
-        "gen": ["EffectOrder"],
+        "gen": ["EffectOrder", "LogEffects"],
     },
     "C06": {
         "level_text": "Lean 4 theorems over a two-actor transition system (producer emitting n frames with a micro-program over lock / publish / record / unlock; subscriber doing subscribe, then snapshot under the same lock, then history ++ live filtered by seq): for each join-safe emit order, every n and EVERY interleaving, the subscriber delivers 0..n-1 exactly once in order; the producer is independent of subscribers; the snapshot is never blocked forever. The emit orders and handler orders are REGENERATED from the current source by the translator ripx on every run, and the obligations 'the session emitter / task emitter / every continuity append has a join-safe shape' and 'every handler subscribes before its snapshot' are re-proved by decide on the regenerated tables. Tied further by controlled-schedule correspondence: the real emitters and the real GET .../events handlers are single-stepped through yield points (cfg rip_verif) for every (subscribe, snapshot) position on short streams and random schedules on longer ones, all three stream kinds; delivered seqs must equal the model's and the observed point trace must match the generated order. A subscriber lagging more than the channel capacity loses frames: recorded known finding. A second LTS (Rip.Model.Rebuild) covers readers that fall back from an unreadable sidecar to the log and rewrite the sidecar while appenders append: with the rewrite under the seq lock no broadcast frame is ever missing from a readable sidecar, for every number of processes and every schedule (the witness for the code as it was is replayed on the real store each run); its tie is the regenerated order of replay_events / its helper, the regenerated list of functions that call rebuild_best_effort, and the scheduled reader-rebuild race on the real store. A subscriber of one thread is also watched while a neighbour thread of the same store (same broadcast channel, its own seq space) appends frames with higher seqs.",
